@@ -233,10 +233,12 @@ def quantile_mask_levels(signal, quantile, axis, weight):
             for j in np.ndindex(*sub.shape):
                 oi = mu.put(idx, dict(zip(sorted(axes), j)))
                 v, x = float(m[qi][oi]), float(sub[j])
+                if m.dtype == np.float32:      # single-precision input gives single-precision levels
+                    v = hi if abs(v - hi) <= 2e-7 else (lo if abs(v - lo) <= 2e-7 else v)
                 if v != hi and v != lo:
                     return Fail('level', f'quantile_mask value {v} at {oi} is neither {hi} nor {lo}')
                 above = (x > thr) if q >= 0 else (x < thr)
-                if abs(x - thr) <= 1e-12 * scale and not (g == 0.0 or a_lo == a_hi):
+                if abs(x - thr) <= (1e-6 if mag.dtype == np.float32 else 1e-12) * scale and not (g == 0.0 or a_lo == a_hi):
                     undecided += 1       # interpolated threshold within rounding of a data point
                     continue
                 if (v == hi) != above:
@@ -486,6 +488,11 @@ def search(ctx):
         shp = _shape_with_rows(rng, ndq, axes)
         qkind = str(rng.choice(['normal', 'normal', 'gauss-int', 'silent']))
         xq = mu.gen_tensor(rng, shp, qkind)
+        if qkind == 'normal' and rng.random() < 0.3:
+            # single-precision STFT at an arbitrary recording level (the mask depends on the ORDER of the magnitudes only)
+            lvl = float(10.0 ** rng.uniform(-13, 3))
+            xq = (xq * lvl).astype(np.complex64)
+            ctx.count('search-quantile-complex64-level-1e%d' % (5 * int(np.floor(np.log10(lvl) / 5))))
         q = _gen_q(rng)
         w = float(rng.choice([0.999, 1.0, 0.5, float(rng.uniform(0.05, 1.0))]))
         axis_arg = _spell_axes(rng, axes, ndq)
